@@ -90,7 +90,8 @@ func TestFixedProbes(t *testing.T) {
 			}
 		}
 	}
-	// listed findings: re-observed every run (see KNOWN.txt / NOTES.md)
+	// two defects this check found, since repaired in /repo (501dbcff6, 7f3a42cd5):
+	// regression probes — they are no longer listed, a recurrence is a violation (see NOTES.md)
 	var known []Script
 	for _, name := range []string{"none", "br"} {
 		known = append(known, Script{Limit: 1000, Enabled: []string{"", name, "gzip"}, Reqs: []Req{{Header: name, Format: "plain", ReadBuf: 512,
